@@ -1,6 +1,6 @@
 (* C09 - KICK, TOPIC and INVITE obey channel rank.  Statements only; proofs in IRCP.RankP. *)
 From IRC Require Import Str Wild Glob Parse Reply State Handlers.
-From IRCP Require Import RankP.
+From IRCP Require Import RankP BanP JoinP InviteP.
 From stdpp Require Import gmap.
 
 Section C09.
@@ -96,6 +96,26 @@ Theorem C09_invite : forall s c nickname ch msg r nick,
   end.
 Proof. exact (process_invite_spec cfg i). Qed.
 
+(* ... AND GRANTS ONE ADMISSION TO THAT CHANNEL.  The record INVITE writes admits its holder past +i whatever the
+   invite-exception list says; *)
+Theorem C09_invitation_admits : forall co inv ch source,
+  invite_allows co (u_set_invited (fun v => {[ch]} ∪ v) inv) ch source.
+Proof. exact invited_allows. Qed.
+
+(* any accepted JOIN to that channel - to the existing channel, or re-creating it after it vanished with the
+   invitation pending - takes exactly that invitation out of the pending set, after which the holder is no longer
+   admitted to the invite-only channel (unless an invite-exception mask matches); a refused JOIN entry leaves the
+   pending invitations alone *)
+Theorem C09_invitation_used_once : forall nick s ch create s' u,
+  users s !! nick = Some u -> join_insert nick s (ch, (true, create)) = Ok s' ->
+  exists u', users s' !! nick = Some u' /\ u_invited u' = u_invited u ∖ {[ch]} /\ ch ∉ u_invited u' /\
+    (forall co source, cm_invite_only (ch_modes co) = true -> ~ matches_any (cm_invex (ch_modes co)) source ->
+                       ~ invite_allows co u' ch source).
+Proof. exact join_uses_invitation. Qed.
+
+Theorem C09_refused_join_keeps_invitation : forall nick s ch create, join_insert nick s (ch, (false, create)) = Ok s.
+Proof. exact refused_join_keeps_invitation. Qed.
+
 End C09.
 
 Print Assumptions C09_kickable.
@@ -104,3 +124,6 @@ Print Assumptions C09_kick_refused_inert.
 Print Assumptions C09_kick_effect.
 Print Assumptions C09_topic.
 Print Assumptions C09_invite.
+Print Assumptions C09_invitation_admits.
+Print Assumptions C09_invitation_used_once.
+Print Assumptions C09_refused_join_keeps_invitation.
